@@ -98,6 +98,63 @@ pub fn sim_clock_reads() -> u64 {
     SIM_CLOCK_READS.with(|c| c.get())
 }
 
+// ---------------------------------------------------------------------------
+// randomness: std draws the keys of every RandomState from getrandom(2) once per thread.  The
+// executable's own `getrandom` takes precedence, so a case run on a fresh thread gets hash keys
+// that are a function of the case's seed alone.
+
+thread_local! {
+    static RAND_OWN: Cell<bool> = const { Cell::new(false) };
+    static RAND_STATE: Cell<u64> = const { Cell::new(0) };
+    static RAND_CALLS: Cell<u64> = const { Cell::new(0) };
+}
+
+#[no_mangle]
+pub unsafe extern "C" fn getrandom(buf: *mut libc::c_void, len: libc::size_t, flags: libc::c_uint) -> libc::ssize_t {
+    let own = RAND_OWN.try_with(|c| c.get()).unwrap_or(false);
+    if !own {
+        return libc::syscall(libc::SYS_getrandom, buf, len, flags) as libc::ssize_t;
+    }
+    let _ = RAND_CALLS.try_with(|c| c.set(c.get() + 1));
+    let p = buf as *mut u8;
+    let mut st = RAND_STATE.with(|c| c.get());
+    let mut i = 0;
+    while i < len {
+        let v = simcore::rng::splitmix64(&mut st);
+        for b in 0..8 {
+            if i < len {
+                *p.add(i) = (v >> (8 * b)) as u8;
+                i += 1;
+            }
+        }
+    }
+    RAND_STATE.with(|c| c.set(st));
+    len as libc::ssize_t
+}
+
+/// Make this thread's hash keys a function of `seed` (call first thing on a fresh thread).
+pub fn own_randomness(seed: u64) {
+    RAND_OWN.with(|c| c.set(true));
+    RAND_STATE.with(|c| c.set(seed.wrapping_mul(0x9e3779b97f4a7c15) ^ 0x5555));
+}
+
+pub fn random_calls() -> u64 {
+    RAND_CALLS.with(|c| c.get())
+}
+
+/// Run `f` on a fresh thread whose hash keys derive from `seed`.
+pub fn on_fresh_thread<R: Send + 'static>(seed: u64, f: impl FnOnce() -> R + Send + 'static) -> R {
+    std::thread::Builder::new()
+        .stack_size(32 << 20)
+        .spawn(move || {
+            own_randomness(seed);
+            f()
+        })
+        .expect("spawn")
+        .join()
+        .expect("case thread panicked")
+}
+
 pub fn live_heap() -> isize {
     LIVE.with(|c| c.get())
 }
